@@ -388,7 +388,15 @@ fn record_rewrites(
     }
 
     // Update arguments to successor blocks (i.e., PHI args).
+    // A conditional branch can reach the same successor through both of its edges:
+    // every edge gets the new arguments.
+    let mut succs: Vec<Block> = Vec::new();
     for BranchToWithArgs { block: succ, .. } in node.successors(context) {
+        if !succs.contains(&succ) {
+            succs.push(succ);
+        }
+    }
+    for succ in succs {
         let args: Vec<_> = succ.arg_iter(context).copied().collect();
         // For every arg of succ, if it's in phi_to_local,
         // we pass, as arg, the top value of local
@@ -407,8 +415,28 @@ fn record_rewrites(
                 };
 
                 modified = true;
-                let params = node.get_succ_params_mut(context, &succ).unwrap();
-                params.push(new_val);
+                match node.get_terminator_mut(context) {
+                    Some(Instruction {
+                        op:
+                            InstOp::ConditionalBranch {
+                                true_block,
+                                false_block,
+                                ..
+                            },
+                        ..
+                    }) => {
+                        for edge in [true_block, false_block] {
+                            if edge.block == succ {
+                                edge.args.push(new_val);
+                            }
+                        }
+                    }
+                    Some(Instruction {
+                        op: InstOp::Branch(to_block),
+                        ..
+                    }) if to_block.block == succ => to_block.args.push(new_val),
+                    _ => unreachable!("a successor is reached through a branch"),
+                }
             }
         }
     }
